@@ -36,6 +36,7 @@ MkSig(a, sh, x, ps, v, rs) == [api |-> a, shape |-> sh, nf |-> x, params |-> ps,
 RL == {<<>>}
       \cup {<<t>> : t \in (ParamTypes \ {"errorp"}) \cup ResultOnly}   \* "errorp" is `error` as a parameter
       \cup {<<t, "error">> : t \in ValueTypes \cup TU \cup {"error", "struct", "chanerr"}}
+      \cup {<<"int", "errval">>, <<"MyString", "errptr">>, <<"float64", "errptr">>, <<"errval", "error">>}
       \cup {<<"int", "int">>, <<"error", "int">>, <<"int", "string">>, <<"int", "chanerr">>, <<"error", "error">>}
       \cup {<<"int", "error", "error">>, <<"int", "int", "error">>, <<"error", "error", "error">>}
 
@@ -71,6 +72,8 @@ CallParamLists == {[ps |-> ps, v |-> FALSE] : ps \in SeqsOf(PTcall, 0, MaxP)}
 IsRow(r) == \/ r \in FamNonFn
             \/ /\ r \in FamReg
                /\ (r.ret = "err" => HasErrPart(r.sig) /\ Register(r.sig) # "refused")
+               \* a value of a concrete error type is an error (a struct is never nil; nil pointers are left alone)
+               /\ (UsesConcreteErr(r.sig) /\ Register(r.sig) # "refused" => r.ret = "err")
 
 Init == \/ row \in {r \in FamNonFn \cup FamReg : IsRow(r)}
         \/ \E a \in Apis, pl \in CallParamLists, args \in ArgLists :
